@@ -251,7 +251,7 @@ def check(prop, tier, seed, cfg, work, t0):
     params["seed"] = seed
     trees = [("working-tree", REPO)]
     regen_note = "not applicable"
-    if cfg.get("regen"):
+    if cfg.get("regen") or any(p.get("regen") for p in cfg.get("parts", [])):
         scratch, note = regen_streams(work)
         regen_note = note if scratch is None else "regenerated streams differs from shipped: analysed both"
         if scratch:
@@ -261,14 +261,24 @@ def check(prop, tier, seed, cfg, work, t0):
     known = load_known()
     all_res, problems, confirmed, known_hits, unconfirmed, not_replayed = [], [], [], {}, [], []
     names = []
+    parts = cfg.get("parts") or [cfg]
+    jobs = []
     for tname, repo in trees:
-        ov, names = assemble_overlay(prop, cfg, os.path.join(work, tname), repo)
+        for pi, part in enumerate(parts):
+            if tname == "regenerated" and not part.get("regen", cfg.get("regen")):
+                continue
+            pcfg = dict(cfg)
+            pcfg.update(part)
+            jobs.append((tname, repo, pi, pcfg))
+    for tname, repo, pi, pcfg in jobs:
+        ov, names = assemble_overlay(prop, pcfg, os.path.join(work, "%s-%d" % (tname, pi)), repo)
         sel = tcfg.get("harness")
         run_names = [n for n in names if re.fullmatch(sel, n)] if sel else names
-        res, err = run_symgo(repo, cfg, ov, run_names, params, work, tname, tcfg.get("timeout_s", 3000))
+        res, err = run_symgo(repo, pcfg, ov, run_names, params, work, "%s-%d" % (tname, pi), tcfg.get("timeout_s", 3000))
         if err:
             problems.append("%s: %s" % (tname, err))
             continue
+        cfg_part = pcfg
         for r in res:
             r["tree"] = tname
             all_res.append(r)
@@ -303,7 +313,7 @@ def check(prop, tier, seed, cfg, work, t0):
                     h = hashlib.sha1(json.dumps([tname, sig, n]).encode()).hexdigest()[:10]
                     dest = os.path.join(OUT, "replays", prop, h)
                     shutil.rmtree(dest, ignore_errors=True)
-                    rep, out = replay(prop, cfg, ov, names, v, params, repo if tname == "working-tree" else repo, dest)
+                    rep, out = replay(prop, cfg_part, ov, names, v, params, repo, dest)
                     if rep:
                         confirmed.append({"sig": sig, "replay": dest, "tree": tname, "msg": v["msg"], "pattern": v.get("pattern", "")})
                         ok = True
